@@ -241,6 +241,27 @@ type TFixedArrays struct {
 	A24 [24]byte `parquet:",optional"`
 	R17 [17]byte
 }
+
+// TEmbedded3: struct embedding three levels deep, several fields in the deepest one.
+type TEmb3C struct {
+	X int32
+	Y string
+	Z *int64
+}
+type TEmb3B struct {
+	TEmb3C
+	B int32
+}
+type TEmb3A struct {
+	TEmb3B
+	A string `parquet:",optional"`
+}
+type TEmbedded3 struct {
+	ID int64
+	TEmb3A
+	W float64
+}
+
 type tTimeIn struct {
 	T time.Time `parquet:",optional"`
 	N int32
@@ -494,7 +515,7 @@ var rowTypes = []*RT{
 	mkRT[TNested]("Nested"), mkRT[TSliceOfStruct]("SliceOfStruct"), mkRT[TListOfStruct]("ListOfStruct"),
 	mkRT[TListOfList]("ListOfList"), mkRT[TMap]("Map"), mkRT[TMapOfStruct]("MapOfStruct"),
 	mkRT[TMapOfSlice]("MapOfSlice"), mkRT[TEmbedded]("Embedded"), mkRT[TDeep]("Deep"), mkRT[TBoolRuns]("BoolRuns"),
-	mkRT[TStrings]("Strings"), mkRT[TFloatsOnly]("FloatsOnly"), mkRT[TPtrStructList]("PtrStructList"), mkRT[TDictNested]("DictNested"), mkRT[TOptStruct]("OptStruct"), mkRT[TEmbeddedMid]("EmbeddedMid"), mkRT[TDictFixed]("DictFixed"), mkRT[TIntTags]("IntTags"), mkRT[TFixedArrays]("FixedArrays"), mkRT[TTimeLogical]("TimeLogical"),
+	mkRT[TStrings]("Strings"), mkRT[TFloatsOnly]("FloatsOnly"), mkRT[TPtrStructList]("PtrStructList"), mkRT[TDictNested]("DictNested"), mkRT[TOptStruct]("OptStruct"), mkRT[TEmbeddedMid]("EmbeddedMid"), mkRT[TDictFixed]("DictFixed"), mkRT[TIntTags]("IntTags"), mkRT[TFixedArrays]("FixedArrays"), mkRT[TTimeLogical]("TimeLogical"), mkRT[TEmbedded3]("Embedded3"),
 }
 
 // ---------------------------------------------------------------------------
